@@ -222,14 +222,18 @@ def gen_universe(rng, n_classes=5, max_fields=4, tns='urn:t', namespaces=('urn:t
             continue
         parent = None
         cands = [p for p in range(i) if p not in data_classes]
-        if cands and rng.random() < 0.3:
+        crossing = any(c['parent'] is not None and c['ns'] != classes[c['parent']]['ns'] for c in classes)
+        force = bool(cands) and not crossing and len(namespaces) > 1 and i >= n_classes - 2   # every universe has one crossing chain
+        if cands and (force or rng.random() < 0.3):
             parent = rng.choice(cands)
             has_children.add(parent)
         # a subclass lives in its own namespace as often as in its base's: inherited members keep the namespace of
         # the class that DECLARES them ({base}a inside a {derived}K element), and chains cross namespaces
         ns = rng.choice(namespaces)
-        if parent is not None and rng.random() < 0.4:
+        if parent is not None and not force and rng.random() < 0.4:
             ns = classes[parent]['ns']
+        if force:
+            ns = rng.choice([n for n in namespaces if n != classes[parent]['ns']])
         taken = set(f['name'] for f in flat_fields({'classes': classes}, parent)) if parent is not None else set()
         fields = []
         for j in range(rng.randint(1, max_fields)):
